@@ -695,6 +695,14 @@ func (l *lexer) lexToken(tok int) action {
 			return nil
 		}
 		if l.cmdSubst != 0 && len(l.stack) == 1 {
+			if l.heredoc.exists() {
+				// the substitution ends on the line of the operator: there
+				// is no body
+				if h := l.heredoc.pop(l.cancel); h != nil {
+					l.error(h.OpPos, "syntax error: here-document delimited by EOF")
+				}
+				return nil
+			}
 			l.emit(tok)
 			l.stack = nil
 			break
